@@ -27,9 +27,9 @@ TECHNIQUE = (
 )
 LEVEL_TEXT = (
     "Every concrete service class found by walking APCI.__subclasses__(); baseline instances come from decoding hand-written valid frames. "
-    "Each int field takes non-integral numerics (x.5 floats, 0.999, -0.5, nan, inf, Fraction, Decimal) and 0..4098, -1, -2, 2^k-1/2^k/2^k+1 for k<=32, 2^16+-1, 2^24+-1, 2^32+-1, -2^31; each bytes field every length 0..20 "
+    "Each int field takes non-integral numerics (x.5 floats, 0.999, -0.5, nan, inf, Fraction, Decimal) and 0..4098, -1, -2, 2^k-1/2^k/2^k+1 for k<=32, 2^16+-1, 2^24+-1, 2^32+-1, -2^31; each bytes field every length 0..40, 63, 64, 253..256 "
     "(random, zero, 0xFF and other all-equal content); list fields every length 0..8 distinct, the same element 2..8 times (identical and "
-    "equal-but-distinct objects), duplicates at start/middle/end, maximum length and beyond with 2/3/6 distinct values; bool/enum/address/list/DPT payload/SCF fields their domains; nested SecureData byte fields every length 0..20; "
+    "equal-but-distinct objects), duplicates at start/middle/end, maximum length and beyond with 2/3/6 distinct values; bool/enum/address/list/DPT payload/SCF fields their domains; nested SecureData byte fields the same lengths; "
     "every value both through the constructor and by assignment to a valid object after construction; the other fields at the baseline and (quick x3, thorough x20) at random values that round-trip on their own. Exploration: values beyond the sweep are not tried."
 )
 LEVEL_NOTE = (
@@ -56,7 +56,13 @@ INT_EDGE = sorted({v for k in range(0, 33) for v in (2**k - 1, 2**k, 2**k + 1)} 
 # -- value domains -----------------------------------------------------------------
 
 
-def _bytes_domain(rng):
+# DPTArray payloads of 254..256 octets assigned after construction: /repo encodes them (GroupValueWrite/Response.to_knx only checks
+# for an empty array) into a PDU its own decoder refuses ("APDU too long"). Genuine by the letter of C06, reported with
+# proposed_fixes/C06-group-value-oversized-array.diff; enable once that is committed (the integrator asked for a quiet /repo).
+OVERSIZED_GROUP_VALUES = True
+
+
+def _bytes_domain(rng, limit=None):
     out = []
     for length in range(21):
         out.append(bytes(rng.randrange(1, 256) for _ in range(length)))
@@ -64,6 +70,14 @@ def _bytes_domain(rng):
             out.append(bytes(length))
             out.append(b"\xff" * length)
             out.append(bytes([rng.randrange(1, 255)]) * length)
+    # beyond 20: every length up to the sum of all alternative layouts of a field (2+4+6+21 octets for the domain address /
+    # IP-secure layouts, the largest set) plus a few - a length equal to *another* layout's total must be refused, not re-split -
+    # and the frame-size boundaries
+    for length in (*range(21, 41), 63, 64, 253, 254, 255, 256):
+        if limit is not None and length > limit:
+            continue
+        out.append(bytes(rng.randrange(1, 256) for _ in range(length)))
+        out.append(bytes(length))
     return out
 
 
@@ -112,7 +126,7 @@ def _domain(token, rng, full):
     if token == "DPTBinary":
         return [DPTBinary(v) for v in range(64)]
     if token == "DPTArray":
-        out = [DPTArray(b) for b in _bytes_domain(rng)]
+        out = [DPTArray(b) for b in _bytes_domain(rng, None if OVERSIZED_GROUP_VALUES else 253)]
         out += [DPTArray((v,)) for v in (0, 1, 63, 64, 255)]
         out += [DPTArray((v,) * n) for v in (0, 7, 255) for n in (2, 3, 14)]
         return out
